@@ -82,6 +82,7 @@ type Case struct {
 	Root int
 	Used map[string]int
 	Term Expr
+	Name string // corpus entries only
 }
 
 // BuildCase enumerates (through g.C) one program whose term has result type t
